@@ -52,7 +52,11 @@ def make_graph(rng, res):
     names = list(rng.choice(NAMESETS))
     T = len(names)
     n = rng.randint(2, 30)
-    G = nx.gnp_random_graph(n, rng.choice([0.1, 0.2, 0.4, 0.7]), seed=rng.randrange(1 << 30))
+    if rng.random() < 0.04:
+        n = rng.randint(280, 400)          # more than 255 vertices / edges per topology / degrees
+        G = nx.star_graph(n - 1) if rng.random() < 0.5 else nx.gnp_random_graph(n, 0.01, seed=rng.randrange(1 << 30))
+    else:
+        G = nx.gnp_random_graph(n, rng.choice([0.1, 0.2, 0.4, 0.7]), seed=rng.randrange(1 << 30))
     edges = list(G.edges())
     special = rng.random()
     for idx, (u, v) in enumerate(edges):
@@ -70,7 +74,7 @@ def make_graph(rng, res):
         for _, w, d in G.edges(v, data=True):
             cnt[names.index(d[NN.TOPOLOGY])] += 1
         if arbitrary:
-            cnt = [max(c and 1, rng.choice([c, 1, 2, 3]) if c else rng.choice([0, 0, 1])) for c in cnt]
+            cnt = [max(c and 1, rng.choice([c, 1, 2, 3, 300, 70000]) if c else rng.choice([0, 0, 1])) for c in cnt]
         G.nodes[v][NN.JOINT_DEGREE] = tuple(cnt) if rng.random() < 0.8 else list(cnt)
     if arbitrary:
         res.count("arbitrary_annotation")
